@@ -41,7 +41,8 @@ LEVEL_TEXT = ("Exploration: hundreds to thousands of stacks (all permutations of
               "A third of the rasters are repeated with the same transformer on the same tree object after an in-place edit."
               " Trees derived from an already rasterised tree (sort_tree, redirect_tree, a tip re-attached in place) are rasterised too."
               " Fortran-ordered, transposed and strided stacks; the rasteriser object is also re-used after another tree and a call with malformed ranges."
-              " Trees naming one source file on one rasteriser; stacks holding only small integers (0/1 masks).")
+              " Trees naming one source file on one rasteriser; stacks holding only small integers (0/1 masks)."
+              " Neurites lying in a plane thinner than a voxel; dtypes spelled as scalar type / dtype object / name; voxels whose level x maximum is an exact integer must convert exactly.")
 LEVEL_NOTE = ("Raster workload bounded to proper round cones (segment longer than the radius "
               "difference by a margin) and trees with >= 2 nodes; a voxel centre within 1e-3 of the "
               "surface, or a boundary centre within 1e-4 of the upper bound, is not decided. Trusts "
